@@ -510,6 +510,13 @@ def validate_block_summary_in_coinstate(
 
 def validate_block_in_coinstate(block: Block, coinstate: CoinState) -> None:
     if block.height <= MAX_KNOWN_HASH_HEIGHT:
+        if block.height != 0 or block.previous_block_hash != b'\x00' * 32:
+            # the height the block states decides that the checks below are skipped, so it must be the block's real
+            # height: otherwise a block on top of any chain could state a low height and be accepted unchecked.
+            previous_block = coinstate.block_by_hash.get(block.previous_block_hash)
+            if previous_block is None or block.height != previous_block.height + 1:
+                raise ValidateBlockHeaderError("Block's reported height incorrect.")
+
         if block.height in KNOWN_HASHES:
             if block.hash() != computer(KNOWN_HASHES[block.height]):
                 raise ValidationError("No forks allowed before block %s" % MAX_KNOWN_HASH_HEIGHT)
